@@ -1,7 +1,7 @@
 (* props/C06.v — C06: queries racing with compaction see each sample exactly once.
-   Statements only; proofs are in proof/CompactRaceProofs.v (invariant in proof/CompactRaceInv.v). *)
+   Statements only; proofs are in proof.CompactRaceProofs proof.CompactRaceClose.v (invariant in proof/CompactRaceInv.v). *)
 From Coq Require Import List ZArith Bool.
-From Verif Require Import model.CompactRace proof.CompactRaceInv proof.CompactRaceProofs.
+From Verif Require Import model.CompactRace proof.CompactRaceInv proof.CompactRaceProofs proof.CompactRaceClose.
 Import ListNotations.
 Open Scope Z_scope.
 
@@ -60,4 +60,41 @@ Proof. vm_compute. reflexivity. Qed.
 Example ex_wait_blocks :
   first_bad ex_s0 [EQBegin 1 0 300; EQOpenHead 1; EQFinish 1; EHWritten (Some 1) 0 100; ESwapped;
                    ETimePub; EFlagSet; EAwaited] 0 = 7.
+Proof. vm_compute. reflexivity. Qed.
+
+(* A block is never released while a querier still reads it: in every reachable state no querier
+   (open or in creation) holds a block whose pending-reader wait has returned (files released /
+   deleted), and no querier ever hit ErrClosing at creation or read a released block. *)
+Theorem C06_no_use_after_close : forall s0 tr s outs,
+  wf_init s0 = true -> run s0 tr = Some (s, outs) ->
+  failed s = false /\
+  (forall x b, In x (queriers s) -> In b (q_blocks x) -> ~ In (b_id b) (closed s)).
+Proof. exact no_use_after_close. Qed.
+
+(* Maintenance finishes once the queries close: in every reachable state without queriers, the
+   step at which the maintenance actor waits (Block.Close's reader wait, the swap of db.blocks
+   and the publication of the gc reference under db.mtx, the reader waits of truncateMemory and
+   truncateOOO) is enabled. *)
+Theorem C06_progress : forall s0 tr s outs,
+  wf_init s0 = true -> run s0 tr = Some (s, outs) -> queriers s = [] ->
+  forall e, next_wait s = Some e -> step s e <> None.
+Proof. exact progress. Qed.
+
+(* non-vacuity of C06_progress: a reachable state with no querier in which the actor is at a wait *)
+Example ex_progress_at_wait :
+  option_map (fun p => (next_wait (fst p), queriers (fst p)))
+             (run ex_s0 [EHWritten (Some 1) 0 100; ESwapped; ETimePub; EFlagSet]) = Some (Some EAwaited, []).
+Proof. vm_compute. reflexivity. Qed.
+
+(* non-vacuity of C06_no_use_after_close: a block compaction whose parent is held by querier 1;
+   the parent can only be released after querier 1 closed *)
+Definition ex_s1 : state :=
+  mkSt [mkS 0 210 6] 200 [] 4611686018427387904 (-4611686018427387904)
+       [mkB 0 0 100 [mkS 0 10 2]; mkB 1 100 200 [mkS 0 120 4]] [] [] [] 0 false 0 Idle [] [] [] [] false.
+Example ex_block_release_waits :
+  (first_bad ex_s1 [EQBegin 1 0 50; EQFinish 1; EBWritten 2 [0; 1] 0 200; ESwapped;
+                    EBlockClosing 0; EBlockClosed 0] 0,
+   first_bad ex_s1 [EQBegin 1 0 50; EQFinish 1; EBWritten 2 [0; 1] 0 200; ESwapped;
+                    EBlockClosing 0; EQIter 1; EQClose 1; EBlockClosed 0; EBlockClosing 1; EBlockClosed 1] 0)
+  = (5, -1).
 Proof. vm_compute. reflexivity. Qed.
